@@ -303,6 +303,7 @@ class OpRunner(object):
             b = self.run.usb
             b.plan.clear()
             b.spec['named_faults'] = []
+            b.unplugged = False          # the cable is back
             return None
         if k == 'maxchunk':
             return d.max_chunk_size
@@ -666,12 +667,25 @@ def _patch_time(mod_names, clock):
         mod = L[m]
         saved.append((mod, mod.time))
         mod.time = shim
+    # any other reference to the real clock in the library (none on the pinned tree: `from time import monotonic` in the packet
+    # store, say) is pointed at the simulated one, too
+    from .clock import patch_clock_refs
+    extra = []
+    for m in ('hidden_helpers', 'adb_message') + tuple(mod_names):
+        mod = L.get(m) if hasattr(L, 'get') else None
+        if mod is not None:
+            extra += patch_clock_refs(mod, shim)
+    saved.append(('refs', extra))
     return saved
 
 
 def _unpatch(saved):
+    from .clock import unpatch_clock_refs
     for mod, val in saved:
-        mod.time = val
+        if mod == 'refs':
+            unpatch_clock_refs(val)
+        else:
+            mod.time = val
 
 
 def _replace_real_locks(obj, sched, seen=None):
